@@ -27,6 +27,11 @@ def parseAction (t : String) : Option Action :=
   | ["unsub", ty] => ty.toNat?.map .unsub
   | ["unsuball"] => some .unsubAll
   | ["pub", ty] => ty.toNat?.map .pub
+  | ["once", ref, k] => k.toNat?.map (fun k => .sched 0 ref k)
+  | ["loop", ref, k] => k.toNat?.map (fun k => .sched 1 ref k)
+  | ["cancel", ref] => some (.cancel ref)
+  | ["sclear"] => some .schedClear
+  | ["cron", v, ref] => some (.cron (v = "1") ref)
   | _ => none
 
 def parseTrigger (t : String) : Option Nat :=
@@ -66,14 +71,16 @@ def showCtx (s : Sys) (c : Cid) : String :=
   let paths := fun (l : List Cid) => sortBy (· ≤ ·) (l.map (fun k => (s.ctx k).path))
   let ch := paths x.children
   let wa := paths x.watchers
-  s!"{c}={x.path}:{showSt x.state}{flags}:i{x.inc}:s{x.sysQ.length}:u{x.userQ.length}:st[{showIds (x.stash.map (·.id))}]:ch[{joinWith "," ch}]:w[{joinWith "," wa}]"
+  let jobs := sortBy (· ≤ ·) (x.jobs.map (·.1))
+  s!"{c}={x.path}:{showSt x.state}{flags}:i{x.inc}:s{x.sysQ.length}:u{x.userQ.length}:st[{showIds (x.stash.map (·.id))}]:ch[{joinWith "," ch}]:w[{joinWith "," wa}]:j[{joinWith "," jobs}]"
 
 def digest (s : Sys) : String :=
   let ctxs := (List.range s.n).map (showCtx s)
   let reg := sortBy (· ≤ ·) (s.registry.map (·.1))
   let ev := if s.log.isEmpty then "-" else joinWith "," s.log
   let subs := sortBy (· ≤ ·) (s.subs.map (fun e => s!"{e.1}@{e.2.1}"))
-  s!"ev={ev} | {joinWith " " ctxs} | reg[{joinWith "," reg}] dl[{showIds s.deadLetters}] subs[{joinWith "," subs}]"
+  let jt := sortBy (· ≤ ·) (s.jobTable.map (·.1))
+  s!"ev={ev} | {joinWith " " ctxs} | reg[{joinWith "," reg}] dl[{showIds s.deadLetters}] subs[{joinWith "," subs}] jobs[{joinWith "," jt}]"
 
 def finish (s : Sys) : Sys × String := ({ s with log := [] }, digest s)
 
